@@ -149,21 +149,100 @@ def ref_regroup(values, frombits, tobits, pad):
     return out
 
 
+# ---- regrouping as integer arithmetic on the bit stream (used by the PROVED convertbits contracts) -------------
+@spec
+def p2(b):
+    """2**b for 0 <= b <= 12 (decision list, so that contracts stay in linear arithmetic)"""
+    if b <= 0:
+        return 1
+    if b == 1:
+        return 2
+    if b == 2:
+        return 4
+    if b == 3:
+        return 8
+    if b == 4:
+        return 16
+    if b == 5:
+        return 32
+    if b == 6:
+        return 64
+    if b == 7:
+        return 128
+    if b == 8:
+        return 256
+    if b == 9:
+        return 512
+    if b == 10:
+        return 1024
+    if b == 11:
+        return 2048
+    return 4096
+
+
+@spec(recursive=True, sig=[TupleOf(Int)], ret=Int)
+def stream5(vs):
+    """the bit stream of 5-bit groups read as one big-endian integer"""
+    if len(vs) == 0:
+        return 0
+    return stream5(vs[:-1]) * 32 + vs[-1]
+
+
+@spec(recursive=True, sig=[Int, Int], ret=TupleOf(Int))
+def groups8(n, c):
+    """the c least significant bytes of n, most significant first"""
+    if c <= 0:
+        return ()
+    return groups8(n // 256, c - 1) + (n % 256,)
+
+
+@spec
+def strict58_ok(vs):
+    """5-bit groups regroup strictly into bytes: fewer than 5 left-over bits, all zero"""
+    return (5 * len(vs)) % 8 < 5 and stream5(vs) % p2((5 * len(vs)) % 8) == 0
+
+
+@spec
+def strict58(vs):
+    """the bytes of the stream without its left-over bits"""
+    return groups8(stream5(vs) // p2((5 * len(vs)) % 8), (5 * len(vs)) // 8)
+
+
+@spec(recursive=True, sig=[Bytes], ret=Int)
+def stream8(bs):
+    if len(bs) == 0:
+        return 0
+    return stream8(bs[:-1]) * 256 + bs[-1]
+
+
+@spec(recursive=True, sig=[Int, Int], ret=TupleOf(Int))
+def groups5(n, c):
+    if c <= 0:
+        return ()
+    return groups5(n // 32, c - 1) + (n % 32,)
+
+
+@spec
+def padded85(bs):
+    """bytes regrouped into 5-bit groups, the last one filled with zero bits"""
+    return groups5(stream8(bs) * p2((5 - (8 * len(bs)) % 5) % 5), (8 * len(bs) + 4) // 5)
+
+
 @spec(opaque=True, sig=[TupleOf(Int)], ret=Bool)
 def conv58_ok(vs):
     """the 5-bit groups vs regroup into whole bytes (fewer than five padding bits, all zero)"""
-    return ref_regroup(list(vs), 5, 8, False) is not None
+    return strict58_ok(vs)
 
 
 @spec(opaque=True, sig=[TupleOf(Int)], ret=TupleOf(Int))
 def conv58(vs):
-    return tuple(ref_regroup(list(vs), 5, 8, False) or ())
+    return strict58(vs)
 
 
 @spec(opaque=True, sig=[Bytes], ret=TupleOf(Int))
 def conv85(bs):
     """bytes regrouped into 5-bit groups, zero-padded"""
-    return tuple(ref_regroup(list(bs), 8, 5, True) or ())
+    return padded85(bs)
 
 
 @spec
@@ -263,3 +342,5 @@ def corrupted(addr, orig):
     if 1 <= n <= 4 and addr.lower() == addr:
         return True
     return addr.lower() == orig and addr != orig and addr != orig.upper()
+
+
